@@ -147,7 +147,7 @@ def getattr_lib(M, interp, obj, name, node):
             raise AnalysisError(f'StringIO.{name} not modelled', node)
         raise AbsRaise(ExcVal('AttributeError', (f"'_io.StringIO' object has no attribute '{name}'",)), node)
     if isinstance(obj, IndexSet):
-        raise AnalysisError('attribute of integer index set not modelled', node)
+        return obj.abs_getattr(interp, name, node)
     h = getattr(obj, 'abs_getattr', None)
     if h is not None:
         return h(interp, name, node)
@@ -161,6 +161,17 @@ def getattr_lib(M, interp, obj, name, node):
         raise AbsRaise(ExcVal('AttributeError', (f"bool has no attribute '{name}'",)), node)
     raise AnalysisError(f'attribute {name} of {type(obj).__name__} not modelled', node, where=_where(interp, node))
 
+
+def _pandas_cow():
+    """library fact keyed to the installed pandas: from 3.0 on Copy-on-Write is always on and Series / Index hand out read-only arrays"""
+    try:
+        import pandas
+        return int(pandas.__version__.split('.')[0]) >= 3
+    except Exception:
+        return False
+
+
+PANDAS_COW = _pandas_cow()
 
 VEC_METHODS = {'astype', 'flatten', 'reshape', 'fill', 'count', 'any', 'all', 'copy', 'to_numpy', 'to_series',
                'ravel', 'sort', 'min', 'max', 'mean', 'std', 'sum', 'tolist', 'filled', 'rolling', 'isocalendar',
@@ -203,7 +214,9 @@ def vec_getattr(M, interp, v, name, node):
         raise AbsRaise(ExcVal('AttributeError', ('data',)), node)
     if name == 'values':
         if v.kind in ('series', 'index', 'dtindex'):
-            return Vec.fresh([El(e.d, False) for e in v.els()], kind='nd', dtype=v.dtype, unit=v.unit)
+            out = Vec.fresh([El(e.d, False) for e in v.els()], kind='nd', dtype=v.dtype, unit=v.unit)
+            out.ro = PANDAS_COW
+            return out
         raise AbsRaise(ExcVal('AttributeError', (f"'{_tname(v)}' object has no attribute 'values'",)), node)
     if name == 'index' and v.kind == 'series':
         if v.index is None:
@@ -625,7 +638,10 @@ def register(M):
                 same = code == src.dtype and (code not in ('M8', 'm8') or unit == src.unit)
             if same and (src.kind == 'nd' or getattr(node, 'func', None) is not None and getattr(node.func, 'attr', '') == 'asanyarray'):
                 return src
-        return _np_array(interp, args, kw, node)
+        out = _np_array(interp, args, kw, node)
+        if isinstance(src, Vec) and src.kind == 'series' and dt is None and isinstance(out, Vec):
+            out.ro = PANDAS_COW      # np.asarray(Series) is Series.to_numpy(): read-only under Copy-on-Write (an Index converts to a fresh array)
+        return out
 
     @ext('numpy.datetime_data')
     def _datetime_data(interp, args, kw, node):
@@ -791,9 +807,31 @@ def register(M):
             return Vec.fresh([El(e.d, False) for e in v.els() if not m_conc(e.m, node, 'compressed()')], kind='nd', dtype=v.dtype, unit=v.unit)
         return v.copy()
 
-    @meth(Vec, 'ravel', 'squeeze', 'view')
+    @meth(Vec, 'ravel', 'squeeze')
     def _ravel(interp, v, args, kw, node):
         return v.view(list(v.idx))
+
+    @meth(Vec, 'view')
+    def _view(interp, v, args, kw, node):
+        """ndarray.view(dtype): the same memory read as another dtype.  Modelled: no dtype (alias), the same dtype, and the 8-byte
+        integer behind datetime64 / timedelta64 (the count of the array's *own unit*), which is where unit assumptions show."""
+        d = args[0] if args else kw.get('dtype')
+        if d is None:
+            return v.view(list(v.idx))
+        code, unit = parse_dtype(interp, d, node)
+        if code == v.dtype and (unit in (None, 'generic') or unit == v.unit):
+            return v.view(list(v.idx))
+        if v.dtype in ('M8', 'm8') and code == 'i8':
+            us = UNIT_SECONDS.get(v.unit or 'ns')
+            if us is None:
+                raise AnalysisError(f'view of datetime unit {v.unit}', node)
+            return Vec.fresh([El(X.ANY if e.d in (X.NAN, X.ANY) else X.scale(num_of_el(e.d), Fr(1) / us), e.m) for e in v.els()], kind=v.kind if v.kind in ('nd', 'ma') else 'nd', dtype='i8')
+        if v.dtype == 'i8' and code in ('M8', 'm8'):
+            us = UNIT_SECONDS.get(unit or 'ns')
+            if us is None:
+                raise AnalysisError(f'view as datetime unit {unit}', node)
+            return Vec.fresh([El(X.scale(num_of_el(e.d), us), e.m) for e in v.els()], kind='nd', dtype=code, unit=unit or 'ns')
+        raise AnalysisError(f'ndarray.view from {v.dtype} to {code} (reinterpreting memory) not modelled', node)
 
     @meth(Vec, 'reshape')
     def _reshape(interp, v, args, kw, node):
@@ -852,8 +890,11 @@ def register(M):
             return Vec.fresh([El(e.d, False) for e in v.els()], kind='nd', dtype=v.dtype, unit=v.unit)
         if v.kind in ('series', 'index', 'dtindex') and all(e.m is False for e in v.els()):
             out = Vec(v.back, list(v.idx), 'nd', v.dtype, v.unit)
+            out.ro = PANDAS_COW      # pandas >= 3 (Copy-on-Write): the array handed out is a read-only view
             return out
-        return Vec.fresh([El(e.d, False) for e in v.els()], kind='nd', dtype=v.dtype, unit=v.unit)
+        out = Vec.fresh([El(e.d, False) for e in v.els()], kind='nd', dtype=v.dtype, unit=v.unit)
+        out.ro = PANDAS_COW and v.kind in ('series', 'index', 'dtindex')
+        return out
 
     @meth(Vec, 'tolist')
     def _tolist(interp, v, args, kw, node):
@@ -1336,6 +1377,9 @@ def register(M):
                 raise AbsRaise(ExcVal('ValueError', ('operands could not be broadcast together',)), n)
             out = []
             int_first = X.FALSE
+            if ln == {0} and kw.get('otypes') is None and len(args) < 2:
+                # library fact: the output dtype is found by calling the function on the first element
+                raise AbsRaise(ExcVal('ValueError', ('cannot call `vectorize` on size 0 inputs unless `otypes` is set',)), n)
             for i in range(ln.pop()):
                 es = [v.el(i) for v in vs]
                 # the function is applied to the underlying data; the result is masked where an argument is
